@@ -965,6 +965,8 @@ class Blob(ShaFile):
     @chunked.setter
     def chunked(self, chunks: list[bytes]) -> None:
         self._chunked_text = chunks
+        # Drop the cached SHA, which was computed over the previous content
+        self._needs_serialization = True
 
     def _serialize(self) -> list[bytes]:
         assert self._chunked_text is not None
